@@ -8,6 +8,9 @@
 (*           without flag bits), len (body length), n (byte count WritePacket returned)         *)
 (*   Packet  one per successful ReadPacket: base, len, eq (body identical - compared in Go),     *)
 (*           consumed (byte count ReadPacket returned)                                          *)
+(*   Held    after the WHOLE sequence has been read: packet i, kept by the caller since its     *)
+(*           ReadPacket returned, still has the written body (eq) - a body that a later read    *)
+(*           overwrites is not "the same sequence of packets with identical bodies"             *)
 (*   Err     ReadPacket failed (kind = "error" | "panic" | "timeout")                           *)
 (*   Eof     ReadPacket reported a clean end of stream; rest = bytes the transport still held   *)
 (* C01 statement: the packets read are the packets written, in order, with identical types      *)
@@ -18,9 +21,12 @@
 (*   Case      cls = hostile input class                                                        *)
 (*   Read      outcome of ReadPacket on the hostile bytes: "Packet" | "Error"                   *)
 (*   Dispatch  outcome of SessionManager.HandlePacket on a fresh connection: "Reply" | "Error"  *)
-(*   both with panicked, timedOut, allocKiB (runtime.MemStats.TotalAlloc delta of the call)     *)
+(*   both with panicked, timedOut, allocKiB (runtime.MemStats.TotalAlloc delta of the call);    *)
+(*   Read also with bodyKiB = size of the body of the returned packet (0 if none)               *)
 (* C05 statement: no panic, no hang on a finite stream, allocation per call at most             *)
-(* K * MaxBody + Slack (K fixed per stage), outcome is a packet / an error / a reply.           *)
+(* K * MaxBody + Slack (K fixed per stage), outcome is a packet / an error / a reply; a packet  *)
+(* handed out never carries more than MaxBody bytes ("beyond a fixed bound ... including after  *)
+(* decompression").                                                                             *)
 EXTENDS VLib
 
 CONSTANTS MaxBodyKiB, KRead, KDispatch, SlackKiB
@@ -33,11 +39,12 @@ BoundKiB(k) == k * MaxBodyKiB + SlackKiB
 
 VARIABLES written,  \* C01: accepted packets in write order
           nr,       \* C01: ReadPacket calls that returned a packet so far
+          nh,       \* C01: Held reports so far (one per decoded packet is mandatory)
           ended,    \* C01: the reader reported Eof or Err
           cls       \* C05: input class of the current case
-vars == <<l, viol, written, nr, ended, cls>>
+vars == <<l, viol, written, nr, nh, ended, cls>>
 
-Init == l = 1 /\ viol = {} /\ written = <<>> /\ nr = 0 /\ ended = FALSE /\ cls = "?"
+Init == l = 1 /\ viol = {} /\ written = <<>> /\ nr = 0 /\ nh = 0 /\ ended = FALSE /\ cls = "?"
 
 Detail(i) == IF i <= Len(written) THEN "cut=" \o written[i].cut \o ":" \o written[i].cls ELSE "past-end"
 Add(s) == viol' = viol \cup s
@@ -47,7 +54,7 @@ TrWrite == /\ Is("Write")
            /\ written' = IF Ev.ok THEN Append(written, [cls |-> Ev.cls, cut |-> Ev.cut, base |-> Ev.base,
                                                         len |-> Ev.len, n |-> Ev.n])
                          ELSE written
-           /\ l' = l + 1 /\ UNCHANGED <<viol, nr, ended, cls>>
+           /\ l' = l + 1 /\ UNCHANGED <<viol, nr, nh, ended, cls>>
 
 TrPacket == /\ Is("Packet")
             /\ LET i == nr + 1 IN
@@ -57,43 +64,49 @@ TrPacket == /\ Is("Packet")
                     Add(  (IF Ev.base # w.base THEN {V("Type", Detail(i))} ELSE {})
                      \cup (IF Ev.len # w.len \/ ~Ev.eq THEN {V("Body", Detail(i))} ELSE {})
                      \cup (IF Ev.consumed # w.n THEN {V("Consumed", Detail(i))} ELSE {}))
-            /\ nr' = nr + 1 /\ l' = l + 1 /\ UNCHANGED <<written, ended, cls>>
+            /\ nr' = nr + 1 /\ l' = l + 1 /\ UNCHANGED <<written, nh, ended, cls>>
+
+TrHeld == /\ Is("Held")
+          /\ Add(IF Ev.eq THEN {} ELSE {V("BodyChangedLater", Detail(Ev.i))})
+          /\ nh' = nh + 1 /\ l' = l + 1 /\ UNCHANGED <<written, nr, ended, cls>>
 
 TrErr == /\ Is("Err")
          /\ Add({V(CASE Ev.kind = "panic" -> "Panic" [] Ev.kind = "timeout" -> "Hang" [] OTHER -> "ReadError",
                    Detail(nr + 1))})
-         /\ ended' = TRUE /\ l' = l + 1 /\ UNCHANGED <<written, nr, cls>>
+         /\ ended' = TRUE /\ l' = l + 1 /\ UNCHANGED <<written, nr, nh, cls>>
 
 TrEof == /\ Is("Eof")
          /\ Add(  (IF nr < Len(written) THEN {V("Missing", Detail(nr + 1))} ELSE {})
             \cup (IF Ev.rest # 0 THEN {V("Leftover", Detail(nr + 1))} ELSE {}))
-         /\ ended' = TRUE /\ l' = l + 1 /\ UNCHANGED <<written, nr, cls>>
+         /\ ended' = TRUE /\ l' = l + 1 /\ UNCHANGED <<written, nr, nh, cls>>
 
 (* ------------------------------------ C05 ------------------------------------------------- *)
-TrCase == /\ Is("Case") /\ cls' = Ev.cls /\ l' = l + 1 /\ UNCHANGED <<viol, written, nr, ended>>
+TrCase == /\ Is("Case") /\ cls' = Ev.cls /\ l' = l + 1 /\ UNCHANGED <<viol, written, nr, nh, ended>>
 
-Call(stage, allowed, k) ==
+CallX(stage, allowed, k, more) ==
   LET d == cls \o ":" \o stage IN
-  Add(  (IF Ev.panicked THEN {V("Panic", d)} ELSE {})
+  Add(more \cup  (IF Ev.panicked THEN {V("Panic", d)} ELSE {})
    \cup (IF Ev.timedOut THEN {V("Hang", d)} ELSE {})
    \cup (IF Ev.allocKiB > BoundKiB(k) THEN {V("AllocBound", d)} ELSE {})
    \cup (IF ~Ev.panicked /\ ~Ev.timedOut /\ Ev.outcome \notin allowed THEN {V("Outcome", d)} ELSE {}))
 
-TrRead     == Is("Read")     /\ Call("read", {"Packet", "Error"}, KRead)    /\ l' = l + 1 /\ ended' = TRUE /\ UNCHANGED <<written, nr, cls>>
-TrDispatch == Is("Dispatch") /\ Call("dispatch", {"Reply", "Error"}, KDispatch) /\ l' = l + 1 /\ UNCHANGED <<written, nr, ended, cls>>
+TooLarge   == IF Ev.outcome = "Packet" /\ Ev.bodyKiB > MaxBodyKiB THEN {V("BodyTooLarge", cls \o ":read")} ELSE {}
+TrRead     == Is("Read")     /\ CallX("read", {"Packet", "Error"}, KRead, TooLarge)    /\ l' = l + 1 /\ ended' = TRUE /\ UNCHANGED <<written, nr, nh, cls>>
+Call(stage, allowed, k) == CallX(stage, allowed, k, {})
+TrDispatch == Is("Dispatch") /\ Call("dispatch", {"Reply", "Error"}, KDispatch) /\ l' = l + 1 /\ UNCHANGED <<written, nr, nh, ended, cls>>
 
 (* ------------------------------------ common ---------------------------------------------- *)
-Known == {"Write", "Packet", "Err", "Eof", "Case", "Read", "Dispatch", "End"}
+Known == {"Write", "Packet", "Held", "Err", "Eof", "Case", "Read", "Dispatch", "End"}
 TrOther == /\ More /\ Ev.ev \notin Known
-           /\ Add({V("UnknownEvent", Ev.ev)}) /\ l' = l + 1 /\ UNCHANGED <<written, nr, ended, cls>>
+           /\ Add({V("UnknownEvent", Ev.ev)}) /\ l' = l + 1 /\ UNCHANGED <<written, nr, nh, ended, cls>>
 
 \* a C01 trace must contain the reader's own end report and a C05 trace its Read report; a trace
 \* without it (dropped events) is rejected
-Final == IF (written # <<>> \/ cls # "?") /\ ~ended THEN {V("Incomplete", Detail(nr + 1))} ELSE {}
+Final == IF ((written # <<>> \/ cls # "?") /\ ~ended) \/ nh # nr THEN {V("Incomplete", Detail(nr + 1))} ELSE {}
 TrEnd == /\ Is("End")
          /\ PrintT("VERDICT " \o ToJson([tr |-> Ev.tr, viol |-> SetToSeq(viol \cup Final)]))
-         /\ l' = l + 1 /\ viol' = {} /\ written' = <<>> /\ nr' = 0 /\ ended' = FALSE /\ cls' = "?"
+         /\ l' = l + 1 /\ viol' = {} /\ written' = <<>> /\ nr' = 0 /\ nh' = 0 /\ ended' = FALSE /\ cls' = "?"
 
-Next == TrWrite \/ TrPacket \/ TrErr \/ TrEof \/ TrCase \/ TrRead \/ TrDispatch \/ TrOther \/ TrEnd
+Next == TrWrite \/ TrPacket \/ TrHeld \/ TrErr \/ TrEof \/ TrCase \/ TrRead \/ TrDispatch \/ TrOther \/ TrEnd
 Spec == Init /\ [][Next]_vars
 =============================================================================
